@@ -114,15 +114,47 @@ def allowedLoop : List Acl → Req → Bool → Bool
 /-- `func (a *clusterACLs) allowed(principal, host, resourceName, resourceType, op)` -/
 def allowed (acls : List Acl) (q : Req) : Bool := allowedLoop acls q false
 
-/-- `func (a *clusterACLs) anyAllowed(principal, host, resourceType, op)`: first matching ALLOW wins; the
-pattern type and every DENY entry are ignored. -/
-def anyAllowed : List Acl → Req → Bool
-  | [], _ => false
-  | a :: rest, q =>
-    if a.rtype != q.rtype || !matchesPrincipal a q.principal || !matchesHost a q.host || !matchesOp a q.op then
-      anyAllowed rest q
-    else if a.perm == permAllow then true
-    else anyAllowed rest q
+/-- First loop of `clusterACLs.anyAllowed` (as repaired by /repo 46d17aa): entries of the resource type whose
+principal and host match and whose operation is `op` or ALL (no implied operations) are sorted into `allows` and
+`denies`; a DENY on the literal `*` returns false at once (`none`); any other permission value is dropped. -/
+def anyAllowedCollect : List Acl → Req → List Acl → List Acl → Option (List Acl × List Acl)
+  | [], _, allows, denies => some (allows, denies)
+  | a :: rest, q, allows, denies =>
+    if a.rtype != q.rtype || !matchesPrincipal a q.principal || !matchesHost a q.host ||
+        (a.op != q.op && a.op != opAll) then
+      anyAllowedCollect rest q allows denies
+    else if a.perm == permDeny then
+      if a.pattern == patLiteral && a.name == star then none
+      else anyAllowedCollect rest q allows (denies ++ [a])
+    else if a.perm == permAllow then anyAllowedCollect rest q (allows ++ [a]) denies
+    else anyAllowedCollect rest q allows denies
+
+/-- The inner `for _, d := range denies` loop; the accumulator is `dominated` (a DENY whose pattern type is
+neither LITERAL nor PREFIXED leaves it unchanged). -/
+def dominatedLoop (al : Acl) (literal : Bool) : List Acl → Bool → Bool
+  | [], dominated => dominated
+  | d :: ds, dominated =>
+    let dominated' :=
+      if d.pattern == patLiteral then literal && d.name == al.name
+      else if d.pattern == patPrefixed then d.name != [] && d.name.isPrefixOf al.name   -- strings.HasPrefix(al.resourceName, d.resourceName)
+      else dominated
+    if dominated' then true else dominatedLoop al literal ds dominated'
+
+/-- Second loop: the first ALLOW that is the literal `*`, or that is LITERAL/PREFIXED and not dominated, wins. -/
+def anyAllowedScan (denies : List Acl) : List Acl → Bool
+  | [] => false
+  | al :: rest =>
+    let literal := al.pattern == patLiteral
+    if literal && al.name == star then true
+    else if !literal && al.pattern != patPrefixed then anyAllowedScan denies rest
+    else if !dominatedLoop al literal denies false then true
+    else anyAllowedScan denies rest
+
+/-- `func (a *clusterACLs) anyAllowed(principal, host, resourceType, op)` -/
+def anyAllowed (acls : List Acl) (q : Req) : Bool :=
+  match anyAllowedCollect acls q [] [] with
+  | none => false
+  | some (allows, denies) => anyAllowedScan denies allows
 
 /-- The cluster state the ACL glue reads: `cfg.enableACLs`, `cfg.superusers` (user names), `c.acls.acls`. -/
 structure Cfg where
@@ -272,8 +304,8 @@ def initProducerID (supers : List Str) (acls : List Acl) (principal host : Str) 
 end Spec
 
 /-- Entries Kafka can hold (and kfake's `validateACLCreation` admits): permission ALLOW or DENY, pattern type
-LITERAL or PREFIXED. Outside this domain the Go code has quirks that have no Kafka counterpart (an entry with
-another permission value counts as an ALLOW in `allowed`; `anyAllowed` never looks at the pattern type). -/
+LITERAL or PREFIXED. Outside this domain `allowed` has a quirk that has no Kafka counterpart (a matching entry with
+another permission value counts as an ALLOW). `anyAllowed` (as repaired) drops such entries, as Kafka does. -/
 def Acl.WF (a : Acl) : Prop :=
   (a.perm = permAllow ∨ a.perm = permDeny) ∧ (a.pattern = patLiteral ∨ a.pattern = patPrefixed)
 
@@ -289,19 +321,5 @@ the super-user theorems assume neither is configured as a super user. -/
 def Cfg.noAnonSuper (c : Cfg) : Prop := anonymous ∉ c.superusers ∧ ([] : Str) ∉ c.superusers
 
 instance (c : Cfg) : Decidable c.noAnonSuper := by unfold Cfg.noAnonSuper; exact inferInstance
-
-/-- The repair proposed for `clusterACLs.anyAllowed` (see the report): the same loop structure, but DENY
-entries are collected and an ALLOW only counts if it is not dominated. Not part of /repo. -/
-def anyAllowedRepaired (acls : List Acl) (q : Req) : Bool :=
-  let rel := acls.filter fun a =>
-    a.rtype == q.rtype && matchesPrincipal a q.principal && matchesHost a q.host && (a.op == q.op || a.op == opAll)
-  let denies := rel.filter (·.perm == permDeny)
-  let allows := rel.filter (·.perm == permAllow)
-  if denies.any (fun d => d.pattern == patLiteral && d.name == star) then false
-  else allows.any fun al =>
-    if al.pattern == patLiteral && al.name == star then true
-    else if al.pattern != patLiteral && al.pattern != patPrefixed then false
-    else if al.pattern == patLiteral && denies.any (fun d => d.pattern == patLiteral && d.name == al.name) then false
-    else !denies.any (fun d => d.pattern == patPrefixed && d.name != [] && d.name.isPrefixOf al.name)
 
 end Model.C34
